@@ -12,6 +12,7 @@ L4 what strict=True accepts is within capacity with explicit hydrogens counted (
 L5 the decoder's atom-symbol reader drops no written field: every capture group that is non-empty on a path feeds a field
    of the atom built on that path
 L6 a written number is the number read (both atom readers): field == +/- int(digits) on every path where digits are parsed
+L7 a number held is the number written: the atom printer omits a numeric field only where it equals the reader's default
 Not decided: encoder(decoder(encoder(s))) == encoder(s) beyond atom spelling (traversal orders).
 """
 import ast
@@ -174,6 +175,7 @@ def run(ctx, rep):
     # decoded SMILES re-encodes to the same symbol
     symlang.check_reader_keeps_groups(ctx, rep, "L5")
     symlang.check_parsed_numerals(ctx, rep, "L6")
+    symlang.check_printer_keeps_fields(ctx, rep, "L7")
     rep.analysed.update({"abstract_reader_atoms": enc["inner"]["n_atoms"], "decoder_atom_dfa_states": len(dec["dfa"].trans),
                          "encoder_atom_dfa_states": len(enc["dfa"].trans)})
 
